@@ -101,7 +101,7 @@ _LIST_RE = re.compile(r"=\s*\(?\s*(\d+)%?n?a?t?\s*,\s*\[(.*?)\]\s*\)?\s*:", re.S
 
 
 def run_cases(prop: str, name: str, imports: str, ty: str, chk: str, cases: list[str],
-              shard: int = 400, timeout: int = 900, prelude: str = "") -> dict:
+              shard: int = 400, timeout: int = 900, prelude: str = "", count: str | None = None) -> dict:
     """Kernel-decide `chk case = true` for every case. Returns
     {'n': total, 'failing': [global indices], 'errors': [text], 'wall_s': s}."""
     t0 = time.time()
@@ -121,8 +121,11 @@ def run_cases(prop: str, name: str, imports: str, ty: str, chk: str, cases: list
             fh.write("].\n")
             fh.write(f"Definition bad := failing ({chk}) cases.\n")
             fh.write("Eval vm_compute in (length bad, firstn 50 bad).\n")
+            if count:
+                fh.write(f"Eval vm_compute in (77777%Z, length (filter ({count}) cases)).\n")
         paths.append(p)
     failing, errors = [], []
+    counted = 0
 
     def one(kp):
         k, p = kp
@@ -132,6 +135,9 @@ def run_cases(prop: str, name: str, imports: str, ty: str, chk: str, cases: list
     with ThreadPoolExecutor(max_workers=NCPU) as ex:
         for k, rc, out in ex.map(one, enumerate(paths)):
             flat = " ".join(out.split())
+            mc = re.search(r"\(77777,\s*(\d+)%nat\)", flat)
+            if mc:
+                counted += int(mc.group(1))
             m = _LIST_RE.search(flat)
             if rc != 0 or not m:
                 errors.append(f"shard {k}: rc={rc}: {out[-2000:]}")
@@ -149,7 +155,8 @@ def run_cases(prop: str, name: str, imports: str, ty: str, chk: str, cases: list
         aux = os.path.join(os.path.dirname(p), "." + os.path.basename(p)[:-2] + ".aux")
         if os.path.exists(aux):
             os.unlink(aux)
-    return {"n": len(cases), "failing": sorted(failing), "errors": errors, "wall_s": round(time.time() - t0, 2)}
+    return {"n": len(cases), "failing": sorted(failing), "errors": errors, "counted": counted,
+            "wall_s": round(time.time() - t0, 2)}
 
 
 # ---------------------------------------------------------------- static build / theorem files
@@ -183,6 +190,11 @@ def check_props_file(relpath: str, timeout: int = 900) -> dict:
             for sec in blk.split("Axioms:")[1:]:
                 for m in re.finditer(r"^([A-Za-z_][A-Za-z0-9_.']*)\s*:", sec, re.M):
                     axioms.add(m.group(1))
+    prims = sorted(a for a in axioms if a.startswith(("PrimInt63.", "PrimFloat.", "Uint63.", "Int63.")) and "_spec" not in a
+                   and "_equiv" not in a)
+    axioms = {a for a in axioms if a not in prims}
+    if prims:
+        axioms.add(f"[{len(prims)} native int63/float primitives: " + ", ".join(p.split(".")[-1] for p in prims) + "]")
     return {"file": relpath, "theorems": names, "ok": rc == 0, "axioms": sorted(axioms),
             "closed_count": closed, "output_tail": out[-1500:] if rc != 0 else ""}
 
